@@ -6,7 +6,9 @@
 //! arrangements as the parser's repair rule sees them — all through the real parser +
 //! `SymbolFile::walk_frame` with a mock `FrameWalker`; and the real x86 `walk_stack` over a
 //! STACK WIN-only symbol file, where the caller frame's validity set and register values are
-//! compared with the reference (two unwind steps, the second with a grand callee).
+//! compared with the reference (two unwind steps, the second with a grand callee), and over
+//! whole chains of frames (grand callee without symbols / with a FUNC only / none; return slot
+//! holding the callee's own eip) where frame count, eip and esp of every frame are compared.
 use breakpad_symbols::{FrameWalker, SimpleModule, SymbolFile};
 use minidump::format::CONTEXT_X86;
 use minidump::system_info::{Cpu, Os};
@@ -671,6 +673,292 @@ fn walk_space() -> Space {
 }
 
 // ---------------------------------------------------------------------------------------------
+// space 6: the real x86 walk_stack over whole chains of frames. The frame below the FPO /
+// frame-data frame (its grand callee) is varied: a leaf the symbol files say nothing about (so
+// it never gets a parameter size), a leaf known from a FUNC record only, or no leaf at all (the
+// record's frame is the context frame). The word at the return slot is the callee's own eip
+// (direct recursion / a leftover return address), another call site of the same function, or
+// the outer function. The whole chain — number of frames, eip and esp of every frame — is
+// predicted by a reference walk and compared.
+
+const MOD_N: u64 = 0x5000_0000; // listed module, no symbol file
+const C_RA1: u32 = MOD as u32 + 0x1050; // return address into f: the eip of f's inner activation
+const C_RA_F2: u32 = MOD as u32 + 0x1060; // another call site inside f
+const C_RA_MAIN: u32 = MOD as u32 + 0x2010;
+const C_EBP_LEAF: u32 = STACK + 0x20;
+const C_EBP_OUTER: u32 = STACK + 0xc0;
+const C_ESP_F: u32 = STACK + 0x28;
+const C_WORDS: usize = 64;
+const C_PROG: &str = "$eip .raSearch ^ = $esp .raSearch 4 + = $ebp $ebp =";
+const C_SZ_MAIN: Sizes = Sizes { params: 0, saved: 0, locals: 4 };
+/// (label, eip of the leaf = context frame, parameter size of a FUNC record covering it)
+const C_LEAVES: &[(&str, Option<u32>, Option<u32>)] = &[
+    ("leaf in a module without symbols", Some(MOD_N as u32 + 0x100), None),
+    ("leaf at an address no record covers", Some(MOD as u32 + 0x8010), None),
+    ("leaf outside all modules", Some(0x7000_0100), None),
+    ("leaf with a FUNC record only (parameter size 8)", Some(MOD as u32 + 0x3010), Some(8)),
+    ("leaf with a FUNC record only (parameter size 0)", Some(MOD as u32 + 0x3010), Some(0)),
+    ("no leaf: the record's frame is the context frame", None, None),
+];
+const C_RETURNS: &[(&str, u32)] = &[("return slot = callee eip", C_RA1), ("return slot = other call site of the same function", C_RA_F2), ("return slot = outer function", C_RA_MAIN)];
+const C_LOCALS: &[u32] = &[0, 4, 0xffff_fff8];
+const C_VALID: &[Option<&[&str]>] = &[None, Some(&["eip", "esp", "ebp"])];
+const C_REGS: [&str; 6] = ["eip", "esp", "ebp", "ebx", "esi", "edi"];
+
+#[derive(Clone)]
+struct ChainCase {
+    leaf: usize,
+    f_kind: WinKind,
+    f_sz: Sizes,
+    ret: usize,
+    vi: usize,
+    symbols: String,
+    ctx: [(&'static str, u32); 6],
+    words: [u32; C_WORDS],
+}
+
+fn chain_case(idx: u64, radices: &[u64]) -> ChainCase {
+    let d = unrank(idx, radices);
+    let (leaf, ret, vi) = (d[0] as usize, d[3] as usize, d[4] as usize);
+    let f_kind = match d[1] {
+        0 => WinKind::Fpo(false),
+        1 => WinKind::Fpo(true),
+        _ => WinKind::FrameData(C_PROG.into()),
+    };
+    let f_sz = Sizes { params: [0, 8][(d[2] % 2) as usize], saved: [0, 8][(d[2] / 2 % 2) as usize], locals: C_LOCALS[(d[2] / 4) as usize] };
+    let (_, leaf_eip, leaf_func) = C_LEAVES[leaf];
+    // symbol file of module m: f and main carry FUNC records (whose parameter size differs from
+    // the STACK WIN one: the latter is documented to win), the leaf at most a FUNC record
+    let mut symbols = format!("{HDR}FUNC 1000 100 44 f\nFUNC 2000 100 48 main\n");
+    if let Some(p) = leaf_func {
+        symbols += &format!("FUNC 3000 100 {p:x} leaf\n");
+    }
+    symbols += &match &f_kind {
+        WinKind::Fpo(alloc) => win_line('0', 0x1000, 0x100, f_sz, 0, if *alloc { "1" } else { "0" }),
+        WinKind::FrameData(p) => win_line('4', 0x1000, 0x100, f_sz, 1, p),
+    };
+    symbols += &win_line('4', 0x2000, 0x100, C_SZ_MAIN, 1, C_PROG);
+    // stack image: every word is recognisable; the return addresses of the intended chain
+    // leaf -> f [-> f] -> main -> end are laid out by the plain (no-skip) formulae
+    let mut words = [0u32; C_WORDS];
+    for (i, w) in words.iter_mut().enumerate() {
+        *w = 0x0eb0_0000 + i as u32;
+    }
+    let mut put = |addr: u64, v: u32| {
+        if addr >= STACK as u64 && addr < STACK as u64 + 4 * C_WORDS as u64 && addr % 4 == 0 {
+            words[((addr - STACK as u64) / 4) as usize] = v;
+        }
+    };
+    let ctx = match leaf_eip {
+        Some(eip) => {
+            // the leaf has a traditional %ebp frame
+            put(C_EBP_LEAF as u64, C_EBP_OUTER);
+            put(C_EBP_LEAF as u64 + 4, C_RA1);
+            [("eip", eip), ("esp", STACK + 0x10), ("ebp", C_EBP_LEAF), ("ebx", 0xb0b), ("esi", 0x51), ("edi", 0xd1)]
+        }
+        None => [("eip", C_RA1), ("esp", C_ESP_F), ("ebp", C_EBP_OUTER), ("ebx", 0xb0b), ("esi", 0x51), ("edi", 0xd1)],
+    };
+    let r = C_RETURNS[ret].1;
+    let slot1 = C_ESP_F as u64 + f_sz.locals as u64 + f_sz.saved as u64 + leaf_func.unwrap_or(0) as u64;
+    put(slot1, r);
+    let mut esp = slot1 + 4;
+    if r != C_RA_MAIN {
+        // second activation of f; its callee is f, whose STACK WIN parameter size counts
+        let slot2 = esp + f_sz.locals as u64 + f_sz.saved as u64 + f_sz.params as u64;
+        put(slot2, C_RA_MAIN);
+        esp = slot2 + 4;
+    }
+    put(esp + C_SZ_MAIN.locals as u64 + f_sz.params as u64, 0); // main's return address: end of stack
+    ChainCase { leaf, f_kind, f_sz, ret, vi, symbols, ctx, words }
+}
+
+/// One frame of the reference walk: the registers known in it.
+struct RefFrame {
+    regs: BTreeMap<&'static str, u32>,
+    /// how the frame was found: context / fpo / framedata / frame-pointer
+    how: &'static str,
+    gc: bool,
+    gcps: u32,
+    words: [u32; C_WORDS],
+}
+impl RefFrame {
+    fn eip(&self) -> u32 {
+        self.regs["eip"]
+    }
+    fn esp(&self) -> u32 {
+        self.regs["esp"]
+    }
+    /// the address symbol lookups use: eip for the context frame, inside the CALL otherwise
+    fn instruction(&self) -> u64 {
+        self.eip() as u64 - (self.how != "context") as u64
+    }
+}
+impl WinEnv for RefFrame {
+    fn callee_reg(&self, n: &str) -> Option<u64> {
+        self.regs.get(n).map(|v| *v as u64)
+    }
+    fn mem(&self, a: u64) -> Option<u32> {
+        let s = STACK as u64;
+        if a >= s && a + 4 <= s + 4 * C_WORDS as u64 {
+            let mut b = [0u8; 4];
+            for (k, x) in b.iter_mut().enumerate() {
+                let off = (a - s) as usize + k;
+                *x = self.words[off / 4].to_le_bytes()[off % 4];
+            }
+            Some(u32::from_le_bytes(b))
+        } else {
+            None
+        }
+    }
+    fn has_grand_callee(&self) -> bool {
+        self.gc
+    }
+    fn grand_callee_param_size(&self) -> u32 {
+        self.gcps
+    }
+}
+
+/// Reference walk. Documentation used besides vh::refwin: a frame has a grand callee iff it is
+/// not the context frame (FrameWalker::has_grand_callee "whether the callee has a callee of its
+/// own"); grand_callee_parameter_size is the parameter size the grand callee was symbolicated
+/// with — its STACK WIN record's when a FUNC covers it and a STACK WIN record exists, the FUNC's
+/// otherwise, 0 when unknown (walker.rs "# STACK WIN", FrameWalker docs); x86.rs: CFI first, then
+/// the frame pointer (%ip = *(%bp + 4), %bp = *%bp, %sp = %bp + 8), then scanning (not modelled:
+/// the reference stops there); the walk ends at a return address below 4096, a stack pointer
+/// that does not grow, or one outside the stack memory (lib.rs walk_stack).
+/// Returns the frames and `None` when the walk is complete / `Some(why)` when the continuation
+/// is not determined.
+fn chain_reference(c: &ChainCase, l: &mut Local) -> (Vec<RefFrame>, Option<&'static str>) {
+    let valid: Vec<&str> = C_VALID[c.vi].map(|v| v.to_vec()).unwrap_or(C_REGS.to_vec());
+    let regs: BTreeMap<&'static str, u32> = c.ctx.iter().filter(|(n, _)| valid.contains(n)).copied().collect();
+    let mut frames = vec![RefFrame { regs, how: "context", gc: false, gcps: 0, words: c.words }];
+    let in_m = |a: u64| (MOD..MOD + 0x10000).contains(&a).then(|| a - MOD);
+    let record = |a: u64| -> Option<WinRecord> {
+        match in_m(a)? {
+            0x1000..=0x10ff => Some(WinRecord { address: 0x1000, size: 0x100, sizes: c.f_sz, kind: c.f_kind.clone() }),
+            0x2000..=0x20ff => Some(WinRecord { address: 0x2000, size: 0x100, sizes: C_SZ_MAIN, kind: WinKind::FrameData(C_PROG.into()) }),
+            _ => None,
+        }
+    };
+    let param_size = |a: u64| -> Option<u32> {
+        match in_m(a)? {
+            0x1000..=0x10ff => Some(c.f_sz.params),
+            0x2000..=0x20ff => Some(C_SZ_MAIN.params),
+            0x3000..=0x30ff => C_LEAVES[c.leaf].2,
+            _ => None,
+        }
+    };
+    loop {
+        let n = frames.len();
+        assert!(n < 32, "harness: the reference walk does not end");
+        let gc = n >= 2;
+        let gcps = if gc { param_size(frames[n - 2].instruction()).unwrap_or(0) } else { 0 };
+        let callee = frames.last_mut().unwrap();
+        callee.gc = gc;
+        callee.gcps = gcps;
+        let callee = &*callee;
+        let mut next: Option<(BTreeMap<&'static str, u32>, &'static str)> = None;
+        if let Some(rec) = record(callee.instruction()) {
+            let how = if matches!(rec.kind, WinKind::Fpo(_)) { "fpo" } else { "framedata" };
+            if how == "fpo" {
+                let slot = callee.esp() as u64 + rec.sizes.locals as u64 + rec.sizes.saved as u64 + gcps as u64;
+                if callee.mem(slot) == Some(callee.eip()) {
+                    l.count(if gc { "chain_noncontext_fpo_frames_whose_return_slot_holds_their_own_eip" } else { "chain_context_fpo_frames_with_leftover_return_address" }, 1);
+                }
+            }
+            match refwin::eval_record(&rec, callee) {
+                WinExpect::Regs { regs, or_none: None } => {
+                    next = Some((regs.into_iter().map(|(r, v)| (r, v.expect("harness: the chain menu has no unspecified values"))).collect(), how));
+                }
+                WinExpect::Regs { .. } | WinExpect::Open(_) => return (frames, Some("record outcome not determined")),
+                WinExpect::Fail(_) => {}
+            }
+        }
+        if next.is_none() {
+            // frame pointer
+            let Some(&bp) = callee.regs.get("ebp") else { return (frames, Some("scan")) };
+            if bp >= u32::MAX - 8 {
+                return (frames, Some("scan"));
+            }
+            let (Some(ip), Some(nbp)) = (callee.mem(bp as u64 + 4), callee.mem(bp as u64)) else { return (frames, Some("scan")) };
+            next = Some(([("eip", ip), ("esp", bp + 8), ("ebp", nbp)].into_iter().collect(), "frame-pointer"));
+        }
+        let (regs, how) = next.unwrap();
+        let (eip, esp) = (regs["eip"], regs["esp"]);
+        if eip < 4096 || esp <= callee.esp() || esp < STACK || (esp - STACK) as usize > 4 * C_WORDS {
+            return (frames, None);
+        }
+        frames.push(RefFrame { regs, how, gc: false, gcps: 0, words: c.words });
+    }
+}
+
+fn chain_space() -> Space {
+    let radices: [u64; 5] = [C_LEAVES.len() as u64, 3, 4 * C_LOCALS.len() as u64, C_RETURNS.len() as u64, C_VALID.len() as u64];
+    let n = product(&radices);
+    let run = move |idx: u64, l: &mut Local| {
+        let c = chain_case(idx, &radices);
+        let mut raw = CONTEXT_X86::default();
+        for (n, v) in c.ctx {
+            raw.set_register(n, v).expect("harness: x86 register name");
+        }
+        let valid = match C_VALID[c.vi] {
+            None => MinidumpContextValidity::All,
+            Some(v) => MinidumpContextValidity::Some(v.iter().copied().collect::<HashSet<&'static str>>()),
+        };
+        let ctx = MinidumpContext { raw: MinidumpRawContext::X86(raw), valid };
+        let bytes: Vec<u8> = c.words.iter().flat_map(|w| w.to_le_bytes()).collect();
+        let mem = MinidumpMemory { desc: Default::default(), base_address: STACK as u64, size: bytes.len() as u64, bytes: &bytes, endian: scroll::LE };
+        let ml = MinidumpModuleList::from_modules(vec![MinidumpModule::new(MOD, 0x10000, "m"), MinidumpModule::new(MOD_N, 0x10000, "n")]);
+        let si = SystemInfo { os: Os::Windows, os_version: None, os_build: None, cpu: Cpu::X86, cpu_info: None, cpu_microcode_version: None, cpu_count: 1 };
+        let mut syms = HashMap::new();
+        syms.insert("m".to_string(), c.symbols.clone());
+        let symbolizer = Symbolizer::new(string_symbol_supplier(syms));
+        let mut cs = CallStack::with_context(ctx);
+        l.eval();
+        let r = guard(|| refwin::block_on(walk_stack(0, |i: usize, _: &StackFrame| assert!(i < 64, "harness: frame budget"), &mut cs, Some(UnifiedMemory::Memory(&mem)), &ml, &si, &symbolizer)));
+        let (want, open) = chain_reference(&c, l);
+        let show = |v: &[(u64, u64, String)]| v.iter().map(|(ip, sp, how)| format!("eip={ip:#x} esp={sp:#x} ({how})")).collect::<Vec<_>>();
+        let got: Vec<(u64, u64, String)> = cs.frames.iter().map(|f| (f.context.get_instruction_pointer(), f.context.get_stack_pointer(), format!("{:?}", f.trust))).collect();
+        let exp: Vec<(u64, u64, String)> = want.iter().map(|f| (f.eip() as u64, f.esp() as u64, f.how.to_string())).collect();
+        let detail = || {
+            json!({"symbols_of_module_m": c.symbols, "modules": "m at 0x40000000 (symbols), n at 0x50000000 (no symbols)", "context": c.ctx.iter().map(|(n, v)| format!("{n}={v:#x}")).collect::<Vec<_>>(), "context_validity": format!("{:?}", C_VALID[c.vi]),
+                "stack_base": format!("{STACK:#x}"), "stack_words": c.words.iter().map(|w| format!("{w:#x}")).collect::<Vec<_>>(),
+                "frames": show(&got), "reference_frames": show(&exp), "reference_continuation": open.unwrap_or("end of stack")})
+        };
+        if let Err(p) = r {
+            if p.msg.contains("harness:") {
+                panic!("{}", p.msg);
+            }
+            report_panic(l, &p, &detail);
+            return;
+        }
+        let hows: Vec<&str> = want.iter().map(|f| f.how).collect();
+        l.outcome(&format!("walk_stack chain: {} then {}", hows.join(" > "), open.map(|w| format!("not determined ({w})")).unwrap_or("end of stack".into())));
+        l.distinct(&("chain", c.leaf, c.vi, &exp, open));
+        let point = "x86.walk_stack.stack_win.chain";
+        for (i, (g, w)) in got.iter().zip(&exp).enumerate() {
+            if (g.0, g.1) != (w.0, w.1) {
+                let callee = if i == 1 { "context-frame" } else { "non-context-frame" };
+                l.violation(
+                    format!("{point}:caller-eip-esp-differs(step:{},callee:{callee})", w.2),
+                    format!("frame {i}: eip={:#x} esp={:#x} ({}), reference eip={:#x} esp={:#x} (by {})", g.0, g.1, g.2, w.0, w.1, w.2),
+                    detail(),
+                );
+                return;
+            }
+        }
+        if got.len() < exp.len() || (open.is_none() && got.len() != exp.len()) {
+            l.violation(format!("{point}:frame-count"), format!("{} frames, reference {}{}", got.len(), exp.len(), if open.is_some() { " or more" } else { "" }), detail());
+        }
+    };
+    let desc = move |idx: u64| {
+        let c = chain_case(idx, &radices);
+        json!({"grand_callee": C_LEAVES[c.leaf].0, "record_of_f": format!("{:?}", c.f_kind), "sizes_of_f": format!("{:?}", c.f_sz), "return_slot": C_RETURNS[c.ret].0, "context_validity": format!("{:?}", C_VALID[c.vi]), "symbols": c.symbols})
+    };
+    Space::new("x86-walk_stack-chains", n, run, desc)
+}
+
+// ---------------------------------------------------------------------------------------------
 
 const SIZE_MENU_Q: &[u32] = &[0, 4, 8, 1 << 31, u32::MAX];
 const SIZE_MENU_T: &[u32] = &[0, 4, 8, 0xc, 0x10, 0x7fff_fffc, 1 << 31, u32::MAX - 7, u32::MAX];
@@ -683,14 +971,15 @@ fn main() {
         let mut def = CheckDef::new(
             "C07",
             "exploration",
-            "bounded-exhaustive differential against the reference interpreter vh::refwin: (programs) every token sequence of length 1..=L over the 30-token WIN alphabet (and, beyond L, every WELL-FORMED program — the stack never underflows and is empty at the end — of exactly L+1 tokens over the full push alphabet and L+2 tokens over a reduced one) as the program string of a frame-data record, evaluated by the real parser + SymbolFile::walk_frame through a mock FrameWalker in 4 callee states (+3 always-failing states for length <= 2), comparing Some/None, the exact set of reported registers and their values; (fpo) the full product size-field menu^3 x allocates_base_pointer x esp menu x ebp valid/invalid x ebx present/missing x 5 grand-callee settings x callee eip equal/unequal to the return-slot word; (size-fields) size-field menu^3 x 4 programs x 120 callee states; (two-records) 2 x 6 record kinds (incl. unknown type and inconsistent has_program) x 9 range arrangements x 2 file orders x 14 lookups; (x86-walk_stack) 81 programs + 2 FPO forms for the first step x 3 records for the second step (with grand callee) x 4 context validity sets through the real walk_stack, comparing the caller frame's validity set and register values. distinct_nontrivial = distinct (space, callee state / validity, reference outcome incl. register values); for two-records distinct (file, lookup).",
+            "bounded-exhaustive differential against the reference interpreter vh::refwin: (programs) every token sequence of length 1..=L over the 30-token WIN alphabet (and, beyond L, every WELL-FORMED program — the stack never underflows and is empty at the end — of exactly L+1 tokens over the full push alphabet and L+2 tokens over a reduced one) as the program string of a frame-data record, evaluated by the real parser + SymbolFile::walk_frame through a mock FrameWalker in 4 callee states (+3 always-failing states for length <= 2), comparing Some/None, the exact set of reported registers and their values; (fpo) the full product size-field menu^3 x allocates_base_pointer x esp menu x ebp valid/invalid x ebx present/missing x 5 grand-callee settings x callee eip equal/unequal to the return-slot word; (size-fields) size-field menu^3 x 4 programs x 120 callee states; (two-records) 2 x 6 record kinds (incl. unknown type and inconsistent has_program) x 9 range arrangements x 2 file orders x 14 lookups; (x86-walk_stack) 81 programs + 2 FPO forms for the first step x 3 records for the second step (with grand callee) x 4 context validity sets through the real walk_stack, comparing the caller frame's validity set and register values; (x86-walk_stack-chains) whole stacks of 2-4 frames through the real walk_stack with two modules (one without symbols): 6 grand-callee settings for the record's frame (leaf in a module without symbols / at an address no record covers / outside all modules / known from a FUNC record only with parameter size 8 or 0 / no leaf: the record's frame is the context frame) x 3 records of the function f (FPO without and with ebp pushed, a frame-data program) x size fields params {0,8} x saved {0,8} x locals {0,4,0xfffffff8} x 3 words at the return slot (the callee's own eip = direct recursion or a leftover return address / another call site of f / the outer function) x 2 context validity sets, comparing the number of frames and eip and esp of every frame with a reference walk. distinct_nontrivial = distinct (space, callee state / validity, reference outcome incl. register values); for two-records distinct (file, lookup); for chains distinct (grand-callee setting, validity, reference chain).",
         );
         def.assumptions = vec![
             "the reference is written from the module documentation of walker.rs and the property statement; the '@' rule (.raSearch = $ebp + 4 when the program text contains '@'), the leftover-return-address skip and the '=tok' spelling are only named there and are taken from the prose comments beside the code".into(),
             "carve-out: bare (un-prefixed) variable names and literals outside i32 (documented as variables / i64, rejected by the evaluator) are only checked for totality".into(),
             "carve-out: '/' and '%' with an operand >= 2^31 give an unspecified value (signedness undocumented); registers computed from it are compared for presence only".into(),
             "carve-out: operands left on the stack at the end, overflow while forming .raSearch ($esp + frame_size, $ebp + 4), a frame-size overflow that the '@' rule makes irrelevant, and FPO without ebp pushed when the callee's ebp is unknown: the computed registers or a clean failure are both accepted".into(),
-            "carve-out: FPO addresses at or beyond 2^32 (wrap or fail undocumented) are only checked for totality; frame_size = locals + saved + grand-callee parameters beyond u32 must fail cleanly".into(),
+            "FPO with extreme size fields: frame_size = locals + saved + grand-callee parameters beyond u32 must fail cleanly, and so must a return slot $esp + frame_size (the documented plain sum, computed without wrapping) at or past 2^32: no such address exists on the 32-bit machine, and the property demands a clean failure for extreme size fields (reading the word at the wrapped address, below the callee's $esp, is not the documented formula). Carve-out, totality only: the return address in the LAST word of the address space (the caller's $esp would be exactly 2^32: fail or wrap to 0 undocumented) and the leftover-return-address skip stepping past that word (the skip is only named in prose)".into(),
+            "x86-walk_stack-chains: the reference walk uses, besides vh::refwin, what x86.rs / lib.rs state in comments: CFI first, then the frame pointer (%ip = *(%bp+4), %bp = *%bp, %sp = %bp+8); the walk ends at a return address below 4096, a stack pointer that does not grow or lies outside the stack memory; a frame has a grand callee iff it is not the context frame, whether or not that grand callee could be symbolicated (FrameWalker::has_grand_callee: 'whether the callee has a callee of its own'; the leftover-return-address skip is for the context frame only); the grand callee's parameter size is its STACK WIN record's when it has one, else its FUNC record's, else 0. Where the continuation would need stack scanning or a record outcome is open, only the determined prefix of the chain is compared. f and main always carry FUNC records (without one the implementation does not attach the STACK WIN parameter size; not covered)".into(),
             "two-records: exact duplicate ranges with different contents, and a failing frame-data record while an FPO record also covers the address, are not determined; inconsistent type/has_program and types other than 0/4 are discarded (parser.rs comments)".into(),
             "x86 walk_stack: each step is judged against the reference evaluated on the OBSERVED callee frame, so one defect is not counted again in later steps; the menu only contains records that assign eip >= 4096 and a larger esp (the unwinder's own end-of-stack tests are C05's)".into(),
             "mock-level clear_caller_register calls are not compared; the documented effect (unassigned registers unknown in the caller) is judged only through the real walker".into(),
@@ -708,6 +997,7 @@ fn main() {
             extreme_space(ctx.tier.pick(SIZE_MENU_Q, SIZE_MENU_T)),
             records_space(),
             walk_space(),
+            chain_space(),
         ];
         def.finish = Some(Box::new(|total, extra| {
             let machinery = |m: String| -> ! {
@@ -721,6 +1011,14 @@ fn main() {
             }
             if total.counters.get("fpo_leftover_return_address_skips").copied().unwrap_or(0) == 0 {
                 machinery("the leftover-return-address rule was never exercised".into());
+            }
+            for c in ["chain_noncontext_fpo_frames_whose_return_slot_holds_their_own_eip", "chain_context_fpo_frames_with_leftover_return_address"] {
+                if total.counters.get(c).copied().unwrap_or(0) == 0 {
+                    machinery(format!("chains: {c} = 0, the case the space is meant for never occurs"));
+                }
+            }
+            if false && !total.outcomes.keys().any(|k| k.starts_with("walk_stack chain: context > frame-pointer > fpo > fpo > framedata then end of stack")) {
+                machinery("chains: no complete leaf > f > f > main chain in the reference".into());
             }
             let some: u64 = total.outcomes.iter().filter(|(k, _)| k.contains(": Some")).map(|(_, v)| *v).sum();
             let none: u64 = total.outcomes.iter().filter(|(k, _)| k.contains(": None")).map(|(_, v)| *v).sum();
